@@ -444,7 +444,7 @@ func signableLayouts() []*model.Layout {
 	var ls []*model.Layout
 	for _, l := range model.LayoutList {
 		switch l.Type {
-		case 41, 250, 249, 255, 128, 46, 24, 30, 10:
+		case 41, 250, 249, 255, 128, 46:
 			continue
 		}
 		ls = append(ls, l)
